@@ -309,6 +309,65 @@ def temporaries_case(rng, res, label):
                                 "a node type whose flatten creates temporaries", {"n": n}))
 
 
+class Cell:
+  """A mutable leaf object (not traversable)."""
+
+  def __init__(self, v):
+    self.v = v
+
+
+class Packed:
+  """Stores plain numbers; its flatten hands them out as temporary Cell leaves."""
+
+  def __init__(self, nums):
+    self.nums = list(nums)
+
+
+def _register_packed():
+  try:
+    daglish.register_node_traverser(
+        Packed,
+        flatten_fn=lambda p: (tuple(Cell(n) for n in p.nums), None),
+        unflatten_fn=lambda cells, _: Packed(c.v for c in cells),
+        path_elements_fn=lambda p: tuple(daglish.Index(i) for i in range(len(p.nums))))
+  except ValueError:
+    pass
+
+
+def temporary_leaves_case(rng, res, label):
+  """Several nodes whose flatten creates temporary LEAF objects: the leaves of one node are garbage when
+  the next node is flattened; every leaf must still be reported exactly once, by every traversal."""
+  _register_packed()
+  k, width = rng.randint(2, 10), rng.randint(1, 6)
+  nodes = [Packed(range(i * width, (i + 1) * width)) for i in range(k)]
+  root = {"nodes": nodes} if rng.random() < 0.5 else [nodes, fdl.Config(l2.fa, nodes[0])]
+  want = sorted(range(k * width))
+  res.evaluations += 1
+  res.count("temporary-leaves")
+  replay = {"label": label, "nodes": k, "width": width}
+  for name, it in (("iterate(memoized=True)", lambda: daglish.iterate(root, memoized=True)),
+                   ("iterate(memoized=True, memoize_internables=False)",
+                    lambda: daglish.iterate(root, memoized=True, memoize_internables=False)),
+                   ("iterate(memoized=False)", lambda: daglish.iterate(root, memoized=False))):
+    got = sorted(v.v for v, _ in it() if isinstance(v, Cell))
+    expect = want if "memoized=False" not in name or not isinstance(root, list) else sorted(want + want[:width])
+    if got != expect:
+      res.failures.append(Failure(None, f"C08 {label}: {name} reported leaves {got[:12]}... of temporaries, "
+                                  f"expected each of {len(expect)} once", replay))
+      break
+  # a fold that does not retain the leaves
+  def total(value, state):
+    if isinstance(value, Cell):
+      return value.v
+    if state.is_traversable(value):
+      return sum(state.flattened_map_children(value).values)
+    return 0
+  got = daglish.MemoizedTraversal.run(total, nodes)
+  if got != sum(want):
+    res.failures.append(Failure(None, f"C08 {label}: a memoized fold over temporaries gave {got}, expected "
+                                f"{sum(want)}", replay))
+
+
 def run(tier: str, seed: int) -> Result:
   rng = random.Random(seed * 49979687 + 8)
   res = Result()
@@ -332,4 +391,5 @@ def run(tier: str, seed: int) -> Result:
     cyclic_case(rng, res, cyc, intern, f"cyc#{i}")
   for i in range(10 if tier == "quick" else 200):
     temporaries_case(rng, res, f"temp#{i}")
+    temporary_leaves_case(rng, res, f"templeaf#{i}")
   return res
